@@ -334,6 +334,34 @@ pub fn compare_stream(rep: &mut Report, prop: &str, ctx: &str, whats: &[&'static
 
 // ---- C05 part c: derived error enums -------------------------------------------------------------
 
+/// Decode `$b` as `$E` directly and, if that gives `$value`, also the way a caller gets it: as the error of
+/// a reply received on a connection. `Ok(equal)` or `Err(why not recognised)`.
+#[macro_export]
+macro_rules! decode_both {
+    ($E:ty, $b:expr, $value:expr) => {{
+        let b: &[u8] = $b;
+        match serde_json::from_slice::<$E>(b) {
+            Err(x) => Err(format!("decoded directly: {x}")),
+            Ok(d) if d != $value => Ok(false),
+            Ok(_) => {
+                let wire = vnet::new_wire(0);
+                {
+                    let mut f = b.to_vec();
+                    f.push(0);
+                    wire.borrow_mut().push(vnet::Rx::Bytes(f));
+                }
+                let mut conn = zlink_core::Connection::new(vnet::VSocket(wire.clone()));
+                let r = vnet::block_on(conn.receive_reply::<serde::de::IgnoredAny, $E>(), 8);
+                match r {
+                    Some(Ok(Err(d))) => Ok(d == $value),
+                    Some(other) => Err(format!("recognised when decoded directly, but receive_reply gives {other:?}")),
+                    None => Err("receive_reply stalled".into()),
+                }
+            }
+        }
+    }};
+}
+
 pub fn check_error_enum<E: Serialize + std::fmt::Debug>(
     rep: &mut Report,
     ctx: &str,
